@@ -562,7 +562,79 @@ func ruleForce(c *RC) *RuleResult {
 			r.fail(s.Fn.Name+"/timeout-caller", c.Prog.Pos(s.Node), "the timeout handler is called from a function that is not reached from OnTimeout / OnNewTransaction alone")
 		}
 	}
+	// a notification is not a timeout: a subscribed backup that is told about a new transaction gives the primary a
+	// regular round, whatever it has received meanwhile — it never asks for a view change (or recovery) on that call.
+	// The backup subscribes only in view 0 with the extension configured (checked first), so that is what a forced call
+	// may assume.
+	cvs := c.senderOf("ChangeViewType")
+	if len(th.Params) == 3 && len(cvs) > 0 {
+		hp, vp, fp := mkTerm(KParam, th.Params[0].Name()), mkTerm(KParam, th.Params[1].Name()), mkTerm(KParam, th.Params[2].Name())
+		viewZero := mkAtom("eq", tViewNumber, tZero)
+		maxSet := mkAtom("nn", fld("cfg.MaxTimePerBlock", false), nil)
+		subOK := true
+		for _, w := range c.funcsCallingCB("cb:SubscribeForTxs") {
+			for _, cs := range c.A.callers[w] {
+				if !c.A.cluster(th)[cs.Fn] {
+					continue
+				}
+				for _, sn := range c.preciseSnapsAll(cs) {
+					if v, ok := sn.F.value(mkAtom("eq", tMyIndex, tPrimaryIndex)); ok && v {
+						continue // the primary's subscription
+					}
+					v0, ok0 := sn.F.value(viewZero)
+					m0, ok1 := sn.F.value(maxSet)
+					if !(ok0 && v0 && ok1 && m0) {
+						subOK = false
+					}
+				}
+			}
+		}
+		init := newState()
+		for _, l := range []Lit{
+			{mkAtom("b", fp, nil), true}, {mkAtom("b", fld("ctx.txSubscriptionOn", false), nil), true},
+			{viewZero, true}, {maxSet, true},
+			{mkAtom("lt", tMyIndex, tZero), false}, {mkAtom("eq", tMyIndex, tPrimaryIndex), false},
+			{mkAtom("b", mkTerm(KCall, "cfg.WatchOnly"), nil), false},
+			{mkAtom("eq", hp, tBlockIndex), true}, {mkAtom("eq", vp, tViewNumber), true},
+		} {
+			init.F.add(l)
+		}
+		r.Sites++
+		bad := ""
+		n := 0
+		for _, e := range c.exitsFrom(th, init, false) {
+			n++
+			for _, f := range cvs {
+				if e.Events["fn:"+f.Name] {
+					bad = "{" + strings.Join(e.Trail, "; ") + "}"
+				}
+			}
+		}
+		switch {
+		case !subOK:
+			r.fail(th.Name+"/backup-subscribes-elsewhere", c.Prog.Pos(th.Decl), "a backup subscribes for transactions outside view 0 / without the extension configured: a forced timeout cannot assume either")
+		case n == 0:
+			r.unresolved("forced paths of the timeout handler for a subscribed backup")
+		case bad != "":
+			r.fail(th.Name+"/forced-change-view", c.Prog.Pos(th.Decl), "a new-transaction notification makes a subscribed backup ask for a view change (or recovery) on path "+bad+": the chain is healthy, the primary has just been given something to propose")
+		default:
+			r.ok(fmt.Sprintf("%s: a forced call on a subscribed backup never reaches the ChangeView sender (%d paths)", th.Name, n))
+		}
+	}
 	return r
+}
+
+// funcsCallingCB: module functions that call the given Config callback directly.
+func (c *RC) funcsCallingCB(cb string) []*FuncInfo {
+	seen := map[*FuncInfo]bool{}
+	var out []*FuncInfo
+	for _, s := range c.callSites(cb) {
+		if !seen[s.Fn] {
+			seen[s.Fn] = true
+			out = append(out, s.Fn)
+		}
+	}
+	return out
 }
 
 // ---- C09 ----
